@@ -137,7 +137,9 @@ class _Proxy:
 
 class SimFS:
     def __init__(self, root, seed=0):
-        self.root = os.path.realpath(root)
+        self.roots = [os.path.realpath(r) for r in (root if isinstance(root, (list, tuple)) else [root])]
+        self.root = self.roots[0]
+        self.hook = None  # optional callable(kind, path) invoked at every boundary (in-situ crash placement)
         self.rng = random.Random(seed)
         self.count = 0
         self.log = []
@@ -148,7 +150,10 @@ class SimFS:
 
     def watched(self, path):
         try:
-            return isinstance(path, str) and os.path.realpath(path).startswith(self.root)
+            if not isinstance(path, str):
+                return False
+            rp = os.path.realpath(path)
+            return any(rp.startswith(r) for r in self.roots)
         except Exception:
             return False
 
@@ -164,6 +169,8 @@ class SimFS:
     def boundary(self, kind, path):
         self.count += 1
         self.log.append((self.count, kind, os.path.basename(path)))
+        if self.hook is not None:
+            self.hook(kind, path)
         if self.armed is not None and self.armed[0] == self.count:
             fk = self.armed[1]
             if fk == 'rename-fail' and kind not in ('rename', 'replace'):
